@@ -32,15 +32,15 @@ O["C03"] = P("proof", ["OpsNumeric", "Dispatch", "TokenConsts"], T("C03"), "nume
 O["C04"] = P("proof", ["OpsString", "Dispatch", "TokenConsts"], T("C04"), "string leaves = relation on lower-cased byte strings, for every lower-casing function")
 O["C05"] = P("proof", ["G4", "ParserRules"], T("C05", merge(PARSE, LEXG)), "only sentences are evaluated: lexParse = grammar; syntax error stored by NewEvaluator and returned by Process")
 O["C06"] = P("proof", ["OpsSupport", "Dispatch"], T("C06"), "failure iff reached, final; mismatch never errors")
-O["C07"] = P("proof", ["Inventory"], T("C07"), "panics are values in the model; every entry point total; robustness exploration in a watched child process",
+O["C07"] = P("proof", ["Observers"], T("C07"), "panics are values in the model; every entry point total; robustness exploration in a watched child process",
              ["fatal Go runtime errors (stack exhaustion, OOM) cannot be exhibited by the model; only observed"])
 O["C08"] = P("proof", ["Dispatch"], T("C08"), "`in` = any eq over the list")
 O["C09"] = P("proof", ["OpsVersion", "Dispatch", "TokenConsts"], T("C09", {"RulesModel.Model.SemverOrder": ["Rules.Sv.good_lex"]}), "version leaves = semver precedence (components < 2^64)")
 O["C10"] = P("proof", ["OpsNullBool", "Dispatch"], T("C10"), "pr / null / bool leaves by denote")
-O["C11"] = P("proof", ["Inventory"], T("C11"), "history independence of the evaluator state machine")
-O["C12"] = P("other", ["Inventory"], T("C12"), "partial: interleaving model proved non-interfering; Go memory-model races only observed with the race detector",
+O["C11"] = P("proof", ["PkgState"], T("C11"), "history independence of the evaluator state machine")
+O["C12"] = P("other", ["PkgState"], T("C12"), "partial: interleaving model proved non-interfering; Go memory-model races only observed with the race detector",
              ["Go race detector; the interleaving model treats calls on private state as atomic steps"])
-O["C13"] = P("other", ["Inventory"], T("C13"), "partial: frame theorem on immutable model values + deep-snapshot correspondence (aliasing writes are not expressible in the model)")
+O["C13"] = P("other", ["Observers"], T("C13"), "partial: frame theorem on immutable model values + deep-snapshot correspondence (aliasing writes are not expressible in the model)")
 O["C14"] = P("proof", [], T("C14"), "three entry points are definitional wrappers in the model; correspondence side by side")
 O["C15"] = P("proof", ["G4", "ParserRules", "TokenConsts", "Dispatch"], T("C15", PARSE), "respelling invariance at token level; every spelling lexes to its kind (finite table, decide); character level by correspondence")
 O["C16"] = P("proof", ["OpsErrMode"], T("C16"), "diagnostic iff a reached comparison is undecidable")
